@@ -64,3 +64,4 @@ revert 9be1db8 C08
 revert 7f9087a C08
 revert 2b52f2e C16
 revert c46cc13 C07
+revert 832ce1a C09
